@@ -1,6 +1,7 @@
 package exec
 
 import (
+	"time"
 	"encoding/binary"
 	"fmt"
 	"go/token"
@@ -56,6 +57,7 @@ type Item struct {
 	Gor   *Gor
 	Op    *VisOp // non-nil when suspended at a visible operation
 	Clock int    // number of moves this goroutine has made along this path (local logical time)
+	Since int    // step at which the item was parked at its current operation
 }
 
 type Machine struct {
@@ -105,7 +107,14 @@ type Machine struct {
 	NoPrune                          bool
 	NTrivial, NAsserts               int
 	Trace2                           bool
+	Params                           map[string]int64 // concrete scenario parameters (vParam)
+	ClockKeys                        bool // keep alternatives with different local clocks apart (canonical event names are shared across interleavings)
 	holdDepth                        int
+	lastChosen                       map[string]int
+	PruneBranches                    bool
+	Deadline                         time.Time // wall-clock budget of the symbolic execution (zero = none)
+	Fairness                         int       // a move enabled for more than this many steps is taken first (0 = default 10)
+	quiescent                        bool
 	SincePositive                    bool
 	approxMemo, approxBody           map[string]T
 	approxList                       map[string][]approxRec
@@ -516,8 +525,20 @@ func (m *Machine) execItem(wl *worklist, it *Item) {
 			} else {
 				a := m.forkItem(it, cond)
 				b := m.forkItem(it, m.C.Not(cond))
-				m.transfer(wl, a, blk.Succs[0])
-				m.transfer(wl, b, blk.Succs[1])
+				// a branch that cannot be taken under the assumptions made so far is dropped (solver-decided)
+				if m.PruneBranches && m.Feasible != nil {
+					if !m.Feasible(a.G) {
+						a.G = m.C.False
+					} else if !m.Feasible(b.G) {
+						b.G = m.C.False
+					}
+				}
+				if !a.G.IsFalse() {
+					m.transfer(wl, a, blk.Succs[0])
+				}
+				if !b.G.IsFalse() {
+					m.transfer(wl, b, blk.Succs[1])
+				}
 			}
 			return
 		case *ssa.Jump:
